@@ -231,10 +231,39 @@ func (g *gen) getEditSet(md *model) opSpec {
 	}
 }
 
+// tweak: an update that differs from a served rule in exactly one field (another valid value).
+func (g *gen) tweak(md *model) (opSpec, bool) {
+	rs := md.allRules()
+	if len(rs) == 0 {
+		return opSpec{}, false
+	}
+	r := *rs[g.rng.Intn(len(rs))]
+	r.cs = ""
+	vs := ruleFieldVariants(&r)
+	v := vs[g.rng.Intn(len(vs))]
+	v.apply(&r)
+	switch g.rng.Intn(4) {
+	case 0:
+		return opSpec{Kind: kSetRules, Rules: []ruleSpec{r}}, true
+	case 1:
+		return opSpec{Kind: kBatch, Batch: []batchSpec{{Action: "add", Rule: r}}}, true
+	case 2:
+		if m := v.mod(&r); m != nil {
+			return opSpec{Kind: kGetModifySet, Mod: m}, true
+		}
+	}
+	return opSpec{Kind: kSetRule, Rule: &r}, true
+}
+
 // op generates the next update given the configured state.
 func (g *gen) op(md *model) opSpec {
 	if g.rng.Intn(100) < 9 {
 		return g.getEditSet(md)
+	}
+	if g.rng.Intn(100) < 8 {
+		if op, ok := g.tweak(md); ok {
+			return op
+		}
 	}
 	switch x := g.rng.Intn(100); {
 	case x < 22:
@@ -454,6 +483,13 @@ func applyReal(m *placement.RuleManager, op opSpec) (err error, notFound bool) {
 			r.StartKeyHex = op.Mod.Str
 		case "end":
 			r.EndKeyHex = op.Mod.Str
+		case "iso":
+			r.IsolationLevel = op.Mod.Str
+		case "cons":
+			r.LabelConstraints = nil
+			for _, c := range op.Mod.Cons {
+				r.LabelConstraints = append(r.LabelConstraints, placement.LabelConstraint{Key: c.Key, Op: placement.LabelConstraintOp(c.Op), Values: append([]string(nil), c.Values...)})
+			}
 		}
 		if err := m.SetRule(r); err != nil || !op.Mod.Again {
 			return err, false
